@@ -15,7 +15,9 @@
 -/
 import CatVerif.Proofs.Log
 import CatVerif.Proofs.Graph
-import CatVerif.Proofs.Steps
+import CatVerif.Proofs.Steps.ByFsm
+import CatVerif.Proofs.Steps.Format
+import CatVerif.Proofs.Steps.CmdList
 namespace Cat
 open St
 
